@@ -32,6 +32,19 @@ SHIM_DIR = os.path.join(VERIF, "shim")
 NCPU = int(os.environ.get("VERIF_JOBS", str(os.cpu_count() or 4)))
 
 
+MTBL_UNITS = ["mtbl/block.c", "mtbl/block_builder.c", "mtbl/compression.c", "mtbl/crc32c_wrap.c",
+              "mtbl/fileset.c", "mtbl/fixed.c", "mtbl/iter.c", "mtbl/merger.c", "mtbl/metadata.c",
+              "mtbl/reader.c", "mtbl/sorter.c", "mtbl/source.c", "mtbl/threadpool.c", "mtbl/varint.c",
+              "mtbl/writer.c", "libmy/crc32c.c", "libmy/crc32c-slicing.c", "libmy/crc32c-sse42.c",
+              "libmy/heap.c", "libmy/my_fileset.c"]
+MTBL_LIBS = ["-lz", "-llz4", "-lzstd", "-lsnappy", "-lpthread"]
+
+
+def all_units_except(*excl):
+    """every real mtbl unit except the ones the harness #includes itself (native link closure)"""
+    return [u for u in MTBL_UNITS if u not in excl]
+
+
 def config_h():
     p = os.path.join(REPO, "config.h")
     if os.path.exists(p):
@@ -232,12 +245,11 @@ def parse_cbmc(out):
     return verdict, failed, info
 
 
-TRACE_IN_RE = re.compile(r"^\s*verif_in\[(\d+)l?\]=(\d+)u?l?\b", re.M)
+TRACE_IN_RE = re.compile(r"^State \d+ file \S+ function vn_u64_raw line \d+ thread \d+\n-+\n\s*verif_input_value=(\d+)u?l?\b", re.M)
 
 
 def trace_for(out, prop_id):
     """slice of the plain-text output holding the trace for property prop_id"""
-    # traces are printed as "Trace for <id>:" ... "Violated property:" ...
     idx = out.find("Trace for %s:" % prop_id)
     if idx < 0:
         return None
@@ -246,13 +258,115 @@ def trace_for(out, prop_id):
 
 
 def trace_inputs(tr):
-    vals = {}
-    for m in TRACE_IN_RE.finditer(tr):
-        vals[int(m.group(1))] = int(m.group(2))
-    if not vals:
-        return []
-    n = max(vals) + 1
-    return [vals.get(i, 0) for i in range(n)]
+    """values returned by vn_u64_raw(), in execution order"""
+    return [int(m.group(1)) for m in TRACE_IN_RE.finditer(tr)]
+
+
+_locks = {}
+_locks_guard = threading.Lock()
+
+
+def _lock_for(key):
+    with _locks_guard:
+        if key not in _locks:
+            _locks[key] = threading.Lock()
+        return _locks[key]
+
+
+def compile_goto(q, workdir, witness):
+    tag = hashlib.sha1(q.compile_key(witness).encode()).hexdigest()[:16]
+    with _lock_for(tag):
+        return _compile_goto(q, workdir, witness, tag)
+
+
+def _compile_goto(q, workdir, witness, tag):
+    gb = os.path.join(workdir, "h_%s.gb" % tag)
+    if os.path.exists(gb):
+        return gb, "", 0.0
+    srcs = [os.path.join(HARNESS_DIR, q.harness), os.path.join(HARNESS_DIR, "verif_rt.c")]
+    srcs += unit_paths(q.units)
+    tmp = gb + ".tmp%d" % os.getpid()
+    cmd = ["goto-cc", "-o", tmp] + cc_common(q, witness) + srcs
+    rc, out, wall, st = run_cmd(cmd, 300)
+    if rc != 0 or not os.path.exists(tmp):
+        return None, "goto-cc failed (rc=%s):\n%s\n%s" % (rc, " ".join(cmd), out), wall
+    os.replace(tmp, gb)
+    return gb, out, wall
+
+
+def cbmc_cmd(q, gb, witness, trace):
+    cmd = ["cbmc", gb, "--function", q.entry, "--drop-unused-functions",
+           "--no-malloc-may-fail"]
+    if q.unwind is not None:
+        cmd += ["--unwind", str(q.unwind)]
+    if q.unwindset:
+        cmd += ["--unwindset", ",".join("%s:%s" % kv for kv in sorted(q.unwindset.items()))]
+    if q.depth:
+        cmd += ["--depth", str(q.depth)]
+    if witness:
+        cmd += ["--no-standard-checks", "--stop-on-fail"]
+    else:
+        cmd += ["--unwinding-assertions", "--pointer-overflow-check",
+                "--undefined-shift-check", "--signed-overflow-check"]
+        if q.leak_check:
+            cmd += ["--memory-leak-check"]
+        if trace:
+            cmd += ["--trace"]
+    if q.object_bits:
+        cmd += ["--object-bits", str(q.object_bits)]
+    be = q.backend
+    if be == "z3":
+        cmd += ["--z3"]
+    elif be == "cvc5":
+        cmd += ["--cvc5"]
+    elif be == "kissat":
+        cmd += ["--external-sat-solver", "kissat"]
+    elif be == "cadical":
+        cmd += ["--sat-solver", "cadical"]
+    for f in q.flags:
+        if witness and f in ("--memory-leak-check",):
+            continue
+        cmd.append(f)
+    return cmd
+
+
+RES_RE = re.compile(r"^\[(?P<id>[^\]]+)\] (?:line \d+ )?(?P<desc>.*): (?P<st>SUCCESS|FAILURE|UNKNOWN|ERROR)$", re.M)
+
+
+def parse_cbmc(out):
+    info = {}
+    m = re.search(r"size of program expression: (\d+) steps", out)
+    if m:
+        info["symex_steps"] = int(m.group(1))
+    m = re.search(r"Generated (\d+) VCC\(s\), (\d+) remaining after simplification", out)
+    if m:
+        info["vccs"] = int(m.group(1))
+        info["vccs_remaining"] = int(m.group(2))
+    m = re.findall(r"(\d+) variables, (\d+) clauses", out)
+    if m:
+        info["sat_vars"] = int(m[-1][0])
+        info["sat_clauses"] = int(m[-1][1])
+    m = re.findall(r"Runtime (?:Solver|decision procedure): ([\d.]+)s", out)
+    if m:
+        info["solver_s"] = sum(float(x) for x in m)
+    m = re.search(r"Runtime Symex: ([\d.]+)s", out)
+    if m:
+        info["symex_s"] = float(m.group(1))
+    results = [(r.group("id"), r.group("desc"), r.group("st")) for r in RES_RE.finditer(out)]
+    info["n_properties"] = len(results)
+    failed = [(i, d) for (i, d, s) in results if s == "FAILURE"]
+    bad = [(i, d) for (i, d, s) in results if s in ("UNKNOWN", "ERROR")]
+    if "VERIFICATION SUCCESSFUL" in out:
+        verdict = "holds"
+    elif "VERIFICATION FAILED" in out:
+        verdict = "violated"
+    else:
+        verdict = "inconclusive"
+    if bad and not failed:
+        verdict = "inconclusive"
+    return verdict, failed, info
+
+
 
 
 def compile_native(q, workdir):
